@@ -3,6 +3,7 @@ package props
 import (
 	"fmt"
 	"strings"
+	"verif/walk"
 
 	"github.com/freeconf/yang/meta"
 
@@ -271,6 +272,15 @@ func (p c02) chains(c *core.Ctx, idx int) {
 	extra := ""
 	if reuse == 0 {
 		extra = "/no-grouping"
+	}
+	// what the bounds of a range say about themselves agrees with how they are written
+	if _, w := walk.Dump(m); w != nil {
+		for _, pr := range w.Problems {
+			if strings.HasPrefix(pr, "range-bound-flags") {
+				c.Violate("chain/range-bound-flags", "%s\n%s", pr, text)
+				break
+			}
+		}
 	}
 	for k, l := range leaves {
 		e := extra
